@@ -226,6 +226,23 @@ func c09Check(c c09Case) error {
 			i := firstDiff(r.Contents, orig)
 			return fmt.Errorf("the header bytes $FFC0-$FFFF of the image were overwritten after reading; WriteHeader of the parsed header did not restore them: file offset $%X holds %02x, the header says %02x", i, r.Contents[i], orig[i])
 		}
+		// the same with the sixteen bytes $FFB0-$FFBF changed as well (say, through a bus writer): a version-1 write-back
+		// leaves them as they are now, a version-2/3 write-back puts the parsed header's bytes back
+		want := append([]byte(nil), orig...)
+		for i := 0; i < 0x50; i++ {
+			r.Contents[0x7FB0+i] ^= 0xA6
+			if i < 0x10 && c09Version(c.Header) <= 1 {
+				want[0x7FB0+i] ^= 0xA6
+			}
+		}
+		if err := r.WriteHeader(); err != nil {
+			return fmt.Errorf("WriteHeader after the image's header bytes were overwritten: %v", err)
+		}
+		if !bytes.Equal(r.Contents, want) {
+			i := firstDiff(r.Contents, want)
+			return fmt.Errorf("all 80 header bytes of the image were overwritten after reading; after WriteHeader of the parsed header (version %d) file offset $%X holds %02x, want %02x (a version-1 write-back leaves $FFB0-$FFBF as they are, later versions restore them)", c09Version(c.Header), i, r.Contents[i], want[i])
+		}
+		copy(r.Contents, orig)
 		for _, off := range []uint32{0x81B0, 0xFFB0} {
 			if int(off)+0x50 > len(orig) {
 				continue
@@ -502,7 +519,7 @@ func init() {
 func TestC09(t *testing.T) {
 	rig.Main(t, "C09", "rapid: 80 random header bytes (versions 1/2/3 forced about one third each) inside images of 1-8 banks plus optional tail; "+
 		"oracles: image unchanged after NewROM+WriteHeader, 80-byte serialisation parses back DeepEqual, every exported leaf field equals the "+
-		"little-endian bytes at its documented address (independent table), version rule, and a drawn single-byte change alters exactly the covering field; the same ROM object is re-read after ROM.Header was cleared, a write-back fails (HeaderOffset beyond the image) before another round trip, and a ROM put together as a struct literal writes its header back. "+
+		"little-endian bytes at its documented address (independent table), version rule, and a drawn single-byte change alters exactly the covering field; the same ROM object is re-read after ROM.Header was cleared, a write-back fails (HeaderOffset beyond the image) before another round trip, and a ROM put together as a struct literal writes its header back; all 80 header bytes of the image are overwritten between reading and writing back; headers of each version with one field at a time blank (spaces, zeroes, $FF) are swept. "+
 		"Every case is non-trivial; distinct = hash(header bytes, size, flip).",
 		func(r *rig.Run) {
 			ev := r.Ev
@@ -554,6 +571,40 @@ func TestC09(t *testing.T) {
 					r.CheckSweep("constant-fill", c, func() error { return c09Check(c) })
 					ev.Case(true, rig.Hash64(c.Header, c.Banks, c.Tail, c.FlipPos, c.FlipVal), func() interface{} { return c })
 					ev.Class("systematic-constant-fill-headers")
+				}
+			}
+			// one field at a time filled with a value that means "blank" to somebody (ASCII spaces, zeroes, erased flash), in
+			// headers of each version
+			for ver := 1; ver <= 3; ver++ {
+				for fi, f := range c09Layout {
+					for _, fill := range []byte{0x20, 0x00, 0xFF} {
+						hdr := make([]byte, 80)
+						for i := range hdr {
+							hdr[i] = rig.Mix(uint32(0xB1A4C+ver), uint32(i))
+						}
+						switch ver { // version markers: $FFDA and $FFD4
+						case 1:
+							hdr[0x2A], hdr[0x24] = 0x01, 0x41
+						case 2:
+							hdr[0x2A], hdr[0x24] = 0x01, 0x00
+						case 3:
+							hdr[0x2A], hdr[0x24] = 0x33, 0x41
+						}
+						if f.addr == 0xFFDA {
+							continue // (the field is a version marker: covered by the marker sweep above)
+						}
+						n := f.size
+						if f.path == "Title" {
+							n = 20 // (its last byte is the other version marker)
+						}
+						for i := 0; i < n; i++ {
+							hdr[int(f.addr-0xFFB0)+i] = fill
+						}
+						c := c09Case{Header: hdr, Banks: 1, FlipPos: (fi*7 + 3) % 80, FlipVal: fill ^ 0x11}
+						r.CheckSweep("blank-field", c, func() error { return c09Check(c) })
+						ev.Case(true, rig.Hash64(c.Header, c.Banks, c.Tail, c.FlipPos, c.FlipVal), func() interface{} { return c })
+						ev.Class("systematic-one-field-blank")
+					}
 				}
 			}
 			r.Rapid("rapid", rig.Pick(40000, 200000), func(t *rapid.T) {
